@@ -28,7 +28,7 @@ N = {"quick": 700, "thorough": 9000}
 BUDGET = {"quick": 45, "thorough": 300}
 RULE = "index k -> (keyword, scheme, supply mode, in-between event, URL respelling) by enumeration of the grid then seeded repetition. Non-trivial = the keyword was accepted; distinct = distinct (keyword, scheme, mode, event, respelling)."
 ASSUMPTIONS = ["a keyword that raises TypeError (at pool creation or at the first request, before any I/O) counts as rejected"]
-REQUIRED_PROBES = {"quick": ["separate_pools", "rejected_keyword", "same_context_shared", "respelled_url_shared", "defaults_unchanged", "evicted_then_A", "seam:source_address", "seam:timeout", "seam:tls"], "thorough": ["separate_pools", "rejected_keyword", "same_context_shared", "respelled_url_shared", "defaults_unchanged", "evicted_then_A", "seam:source_address", "seam:timeout", "seam:tls"]}
+REQUIRED_PROBES = {"quick": ["separate_pools", "unset_vs_falsy", "rejected_keyword", "same_context_shared", "respelled_url_shared", "defaults_unchanged", "evicted_then_A", "seam:source_address", "seam:timeout", "seam:tls"], "thorough": ["separate_pools", "unset_vs_falsy", "rejected_keyword", "same_context_shared", "respelled_url_shared", "defaults_unchanged", "evicted_then_A", "seam:source_address", "seam:timeout", "seam:tls"]}
 
 
 def keywords():
@@ -93,19 +93,43 @@ def values(kw: str):
     return (lambda: "value-A", lambda: "value-B")
 
 
+class _Unset:
+    def __repr__(self):
+        return "<not given>"
+
+
+UNSET = _Unset()
+
+
+def falsy_values(kw: str):
+    """Values that are falsy in Python yet mean something else than leaving the keyword out."""
+    return {
+        "cert_reqs": [lambda: ssl.CERT_NONE],  # IntEnum 0; default is CERT_REQUIRED
+        "assert_hostname": [lambda: False],  # default: the name is matched
+        "retries": [lambda: False, lambda: 0],  # default: Retry(3)
+        "socket_options": [lambda: []],  # default: TCP_NODELAY
+    }.get(kw, [])
+
+
+FALSY_KWS = ["cert_reqs", "assert_hostname", "retries", "socket_options"]
 MODES = ["pool_kwargs", "ctor_default_A"]
 EVENTS = ["none", "evict", "idle_close", "respell"]
 
 
 def cases(seed, k, tier):
     ks = keywords()
-    grid = [(kw, scheme, mode, ev) for kw in ks for scheme in ("http", "https") for mode in MODES for ev in EVENTS]
+    grid = [(kw, scheme, mode, ev, None) for kw in ks for scheme in ("http", "https") for mode in MODES for ev in EVENTS]
+    # contexts that differ by "keyword not given" vs "keyword given with a falsy but meaningful value"
+    grid += [(kw, scheme, mode, ev, i) for kw in FALSY_KWS if kw in ks for i in range(len(falsy_values(kw))) for scheme in ("http", "https") for mode in MODES for ev in EVENTS]
     rng = rng_for(seed, ID, k)
     if k < len(grid):
-        kw, scheme, mode, ev = grid[k]
+        kw, scheme, mode, ev, fi = grid[k]
     else:
-        kw, scheme, mode, ev = rng.choice(grid)
-    yield {"property": ID, "kw": kw, "scheme": scheme, "mode": mode, "event": ev, "flip": rng.random() < 0.5 if k >= len(grid) else False}
+        kw, scheme, mode, ev, fi = rng.choice(grid)
+    sc = {"property": ID, "kw": kw, "scheme": scheme, "mode": mode, "event": ev, "flip": rng.random() < 0.5 if k >= len(grid) else False}
+    if fi is not None:
+        sc["falsy"] = fi
+    yield sc
 
 
 def run(sc: dict) -> Result:
@@ -113,7 +137,11 @@ def run(sc: dict) -> Result:
     urllib3 = H.u3()
     kw, scheme, mode, ev = sc["kw"], sc["scheme"], sc["mode"], sc["event"]
     va, vb = values(kw)
-    if sc.get("flip"):
+    if sc.get("falsy") is not None:
+        va, vb = (lambda: UNSET), falsy_values(kw)[sc["falsy"]]
+        res.probes["unset_vs_falsy"] += 1
+    # (with a constructor default, "not given" on the request means that default: the unset side must be the constructor's)
+    if sc.get("flip") and not (sc.get("falsy") is not None and mode == "ctor_default_A"):
         va, vb = vb, va
     w = W.World({})
 
@@ -140,7 +168,7 @@ def run(sc: dict) -> Result:
         def do(pm, label, value, use_kwargs, url_base=base):
             nonlocal rejected
             try:
-                if use_kwargs:
+                if use_kwargs and value is not UNSET:
                     pool = pm.connection_from_url(url_base + "/", pool_kwargs={kw: value})
                 else:
                     pool = pm.connection_from_url(url_base + "/")
@@ -164,7 +192,7 @@ def run(sc: dict) -> Result:
                 do(pm, "A", A, True)
                 do(pm, "B", B_, True)
             else:
-                pm = urllib3.PoolManager(num_pools=1 if ev == "evict" else 10, **dict(common, **{kw: A}))
+                pm = urllib3.PoolManager(num_pools=1 if ev == "evict" else 10, **dict(common, **({kw: A} if A is not UNSET else {})))
                 defaults_before = copy.copy(pm.connection_pool_kw)
                 do(pm, "A", A, False)
                 do(pm, "B", B_, True)
@@ -239,6 +267,13 @@ def check_seams(kw, A, B_, w, res):
         if lab not in ("A", "B"):
             continue
         want = A if lab == "A" else B_
+        if want is UNSET:
+            if kw == "socket_options":
+                from urllib3.connection import HTTPConnection
+
+                want = list(HTTPConnection.default_socket_options)
+            else:
+                continue
         if kw == "source_address":
             res.probes["seam:source_address"] += 1
             if s.bound != tuple(want):
@@ -258,6 +293,10 @@ def check_seams(kw, A, B_, w, res):
         if lab not in ("A", "B"):
             continue
         want = A if lab == "A" else B_
+        if want is UNSET:
+            want = {"cert_reqs": "CERT_REQUIRED"}.get(kw, UNSET)
+        elif kw == "cert_reqs" and not isinstance(want, str):
+            want = {0: "CERT_NONE", 1: "CERT_OPTIONAL", 2: "CERT_REQUIRED"}[int(want)]
         res.probes["seam:tls"] += 1
         if kw == "server_hostname" and t[2] != want:
             res.bad("setting_not_applied", f"TLS wrap on socket {t[1]} (context {lab}) used server_hostname {t[2]!r}, context says {want!r}")
@@ -269,6 +308,8 @@ def check_seams(kw, A, B_, w, res):
 
 def shrinks(sc):
     for fld, simple in (("event", "none"), ("mode", "pool_kwargs"), ("scheme", "http"), ("flip", False)):
+        if fld == "scheme" and sc["kw"] in ("cert_reqs", "assert_hostname") and sc.get("falsy") is not None:
+            continue
         if sc.get(fld) != simple:
             c = copy.deepcopy(sc)
             c[fld] = simple
